@@ -595,6 +595,11 @@ func (w *World) queryCallConfs(chain string, scope []byte, nonce uint64) []*mhub
 	return r.Signatures
 }
 
+type relayMemo struct {
+	b    *mhub2types.BatchTx
+	sigs map[[20]byte][]byte
+}
+
 // alignSigs orders signatures by the contract's current member list; mask selects which members' sigs to use.
 func alignSigs(cur []ext.Member, sigBy map[[20]byte][]byte, mask uint64, digest [32]byte) []ext.Sig {
 	out := make([]ext.Sig, len(cur))
@@ -644,22 +649,52 @@ func (w *World) doRelay(in Intent) {
 		w.preExtCall(call, s, nil, nil, sigs)
 		call.Err = e.UpdateValset(membersOf(s), s.Nonce, cur, e.ValsetNonce, sigs)
 		w.postExtCall(call)
-	case "batch":
-		bs := w.queryBatches(in.Chain)
-		if len(bs) == 0 {
-			return
-		}
-		b := bs[in.Pick%len(bs)]
-		if in.Pick >= 5 { // 7 = newest, 6 = second newest, 5 = third newest
-			k := len(bs) - 1 - (7 - in.Pick)
-			if k < 0 {
-				k = 0
-			}
-			b = bs[k]
-		}
+	case "batch", "batch_stale":
+		var b *mhub2types.BatchTx
 		sigBy := map[[20]byte][]byte{}
-		for _, c := range w.queryBatchConfs(in.Chain, b.ExternalTokenId, b.BatchNonce) {
-			sigBy[ext.ParseAddr(c.ExternalSigner)] = c.Signature
+		if in.Op == "batch_stale" {
+			// a relayer that kept a confirmed batch it fetched earlier and submits it now, whatever the hub
+			// thinks of that batch in the meantime (the contract alone decides whether it can still execute)
+			mem := w.relayMem[in.Chain]
+			if len(mem) == 0 {
+				return
+			}
+			m := mem[in.Pick%len(mem)]
+			b, sigBy = m.b, m.sigs
+			w.St.Fault("relay_stale_batch")
+		} else {
+			bs := w.queryBatches(in.Chain)
+			if len(bs) == 0 {
+				return
+			}
+			b = bs[in.Pick%len(bs)]
+			if in.Pick >= 5 { // 7 = newest, 6 = second newest, 5 = third newest
+				k := len(bs) - 1 - (7 - in.Pick)
+				if k < 0 {
+					k = 0
+				}
+				b = bs[k]
+			}
+			for _, c := range w.queryBatchConfs(in.Chain, b.ExternalTokenId, b.BatchNonce) {
+				sigBy[ext.ParseAddr(c.ExternalSigner)] = c.Signature
+			}
+			// remember every pending batch with its confirmations (bounded)
+			for _, x := range bs {
+				sg := map[[20]byte][]byte{}
+				for _, c := range w.queryBatchConfs(in.Chain, x.ExternalTokenId, x.BatchNonce) {
+					sg[ext.ParseAddr(c.ExternalSigner)] = c.Signature
+				}
+				found := false
+				for i := range w.relayMem[in.Chain] {
+					if w.relayMem[in.Chain][i].b.BatchNonce == x.BatchNonce && w.relayMem[in.Chain][i].b.ExternalTokenId == x.ExternalTokenId {
+						w.relayMem[in.Chain][i].sigs = sg
+						found = true
+					}
+				}
+				if !found && len(w.relayMem[in.Chain]) < 24 {
+					w.relayMem[in.Chain] = append(w.relayMem[in.Chain], relayMemo{b: x, sigs: sg})
+				}
+			}
 		}
 		cur := append([]ext.Member(nil), e.Valset...)
 		sigs := alignSigs(cur, sigBy, in.Mask, ext.BatchHash(batchCallOf(b), e.GravityID))
